@@ -43,17 +43,32 @@ pub struct Sc10 {
     pub need_reply: bool,
 }
 
+/// The handler values the peer answers caller `i` with: every value carries the caller's index, so
+/// a reply delivered to the wrong caller is visible in the returned value.
+fn tag_script(i: usize) -> Script {
+    let k = i as u64;
+    Script {
+        features: 0xfeed_0000 + k,
+        proto: [PF_MQ, PF_LOG_SHMFD, PF_CONFIG][i % 3],
+        queue_num: 7 + k,
+        vring_base: 100 + i as u32,
+        max_slots: 0x20 + k,
+        shmem: (1 + i as u32, vec![0x1000 * (k + 1)]),
+        inflight: (0x1000 * (k + 1), 0x40 * k, 2, 256),
+        state_returns_file: i % 2 == 1,
+        ..Default::default()
+    }
+}
+
+/// Callers issuing the very same request cannot be told apart by the peer: they share a tag.
+fn tag_index(calls: &[Call], i: usize) -> usize {
+    (0..=i).find(|j| format!("{:?}", calls[*j]) == format!("{:?}", calls[i])).unwrap_or(i)
+}
+
 /// What a caller must get back (its own tag).
-fn expected(c: &Call, need_reply: bool) -> String {
-    match c {
-        Call::Fe(op) => match op {
-            FeOp::GetFeatures => "Ok(U64(0xfeed0001))".into(),
-            FeOp::GetQueueNum => "Ok(U64(0x7))".into(),
-            FeOp::GetMaxMemSlots => "Ok(U64(0x21))".into(),
-            FeOp::GetVringBase(q) => format!("Ok(U32({:#x}))", 100 + *q as u32),
-            FeOp::GetConfig(o, s, _) => format!("Ok(cfg{:x?})", crate::recorder::config_pattern(*o, *s)),
-            _ => "Ok(Unit)".into(),
-        },
+fn expected(calls: &[Call], i: usize, need_reply: bool, res: &Resources) -> String {
+    match &calls[i] {
+        Call::Fe(op) => format!("Ok({:?})", op.expected_ret(&tag_script(tag_index(calls, i)), res)),
         Call::Bp(op) => match op {
             BpOp::ShmemUnmap(..) if need_reply => "Err".into(),
             _ => "Ok(0)".into(),
@@ -68,10 +83,6 @@ fn expected(c: &Call, need_reply: bool) -> String {
 
 fn render_fe(r: &Result<FeRet, String>) -> String {
     match r {
-        Ok(FeRet::U64(v)) => format!("Ok(U64({v:#x}))"),
-        Ok(FeRet::U32(v)) => format!("Ok(U32({v:#x}))"),
-        Ok(FeRet::Config(_, _, _, p)) => format!("Ok(cfg{p:x?})"),
-        Ok(FeRet::Unit) => "Ok(Unit)".into(),
         Ok(o) => format!("Ok({o:?})"),
         Err(e) => format!("Err({e})"),
     }
@@ -84,7 +95,7 @@ pub struct St {
     handles: Vec<std::thread::JoinHandle<()>>,
     kind: u8, // 0 frontend, 1 backend proxy, 2 gpu
     answered: usize,
-    _res: Arc<Resources>,
+    res: Arc<Resources>,
 }
 
 /// Parse the requests currently queued at the peer without consuming them.
@@ -109,35 +120,22 @@ fn peek_requests(fd: RawFd) -> Vec<(u32, u32, Vec<u8>)> {
     out
 }
 
-fn awaits_reply(kind: u8, code: u32, flags: u32) -> bool {
+fn awaits_reply(kind: u8, code: u32, flags: u32, size: usize) -> bool {
     match kind {
-        0 => reply_kind(code) == ReplyKind::Reply || code == SET_LOG_BASE || flags & F_NEED_REPLY != 0,
+        // (only the descriptor-carrying form of SET_LOG_BASE is answered with a reply)
+        0 => reply_kind(code) == ReplyKind::Reply || (code == SET_LOG_BASE && size == 16) || flags & F_NEED_REPLY != 0,
         1 => flags & F_NEED_REPLY != 0,
         _ => matches!(code, G_GET_PROTOCOL_FEATURES | G_GET_DISPLAY_INFO | G_GET_EDID | G_DMABUF_UPDATE),
     }
 }
 
 fn reply_for(kind: u8, code: u32, flags: u32, payload: &[u8]) -> Option<Vec<u8>> {
-    if !awaits_reply(kind, code, flags) {
+    if !awaits_reply(kind, code, flags, payload.len()) {
         return None;
     }
     let fl = F_REPLY | F_VERSION;
     Some(match kind {
-        0 => match code {
-            GET_FEATURES => message(code, fl, &p_u64(0xfeed_0001)),
-            GET_QUEUE_NUM => message(code, fl, &p_u64(7)),
-            GET_MAX_MEM_SLOTS => message(code, fl, &p_u64(0x21)),
-            GET_VRING_BASE => {
-                let idx = rd32(payload, 0);
-                message(code, fl, &p_vring_state(idx, 100 + idx))
-            }
-            SET_LOG_BASE => message(code, fl, payload),
-            GET_CONFIG => {
-                let (o, s, f) = (rd32(payload, 0), rd32(payload, 4), rd32(payload, 8));
-                message(code, fl, &p_config(o, s, f, &crate::recorder::config_pattern(o, s)))
-            }
-            _ => message(code, fl, &p_u64(0)),
-        },
+        0 => message(code, fl, &p_u64(0)),
         1 => message(code, fl, &p_u64(if code == B_SHMEM_UNMAP { 5 } else { 0 })),
         _ => match code {
             G_GET_PROTOCOL_FEATURES => message(code, F_REPLY, &p_u64(0xabc)),
@@ -257,7 +255,7 @@ impl Scenario for Sc10 {
             }
         }
         x.ctl.quiesce(self.calls.len())?;
-        Ok(St { peer, ep_fd, results, handles, kind, answered: 0, _res: res })
+        Ok(St { peer, ep_fd, results, handles, kind, answered: 0, res })
     }
 
     fn env_names(&self) -> Vec<String> {
@@ -280,10 +278,35 @@ impl Scenario for Sc10 {
             }
         }
         // a reply-awaiting request must be alone: nothing may have been written behind it
-        if awaits_reply(s.kind, code, flags) && q.len() > 1 {
+        if awaits_reply(s.kind, code, flags, payload.len()) && q.len() > 1 {
             x.violation("C10:second-request-behind-awaited-request", &format!("request code {code} awaits a reply but {} more request(s) were already written behind it: {:?}", q.len() - 1, q.iter().skip(1).map(|r| r.0).collect::<Vec<_>>()));
         }
         s.answered += 1;
+        if s.kind == 0 {
+            if !awaits_reply(0, code, flags, payload.len()) {
+                return format!("consume({code})");
+            }
+            // whose request is this? (code and body identify the call; identical calls share a tag)
+            let who = self.calls.iter().position(|c| match c {
+                Call::Fe(op) => {
+                    let (bytes, _) = correct_request(op, F_VERSION, &s.res);
+                    op.code() == code && bytes[12..] == payload[..]
+                }
+                _ => false,
+            });
+            return match who {
+                Some(i) => {
+                    let Call::Fe(op) = &self.calls[i] else { unreachable!() };
+                    let (r, fds) = correct_reply(op, &tag_script(tag_index(&self.calls, i)), &s.res);
+                    send_with_fds(s.peer.as_raw_fd(), &r, &fds);
+                    format!("answer({code})")
+                }
+                None => {
+                    x.violation("C10:unknown-request-on-the-wire", &format!("request code {code} with a body no caller's call encodes to: {:x?}", payload));
+                    format!("unknown({code})")
+                }
+            };
+        }
         match reply_for(s.kind, code, flags, &payload) {
             Some(r) => {
                 send_with_fds(s.peer.as_raw_fd(), &r, &[]);
@@ -309,8 +332,8 @@ impl Scenario for Sc10 {
             x.violation("C10:deadlock", &format!("no actor is enabled but caller(s) never completed: {stuck:?}"));
         }
         let res = s.results.lock().unwrap().clone();
-        for (i, c) in self.calls.iter().enumerate() {
-            let want = expected(c, self.need_reply);
+        for i in 0..self.calls.len() {
+            let want = expected(&self.calls, i, self.need_reply, &s.res);
             match &res[i] {
                 Some(got) => {
                     let ok = if want == "Err" { got.starts_with("Err") } else { *got == want };
@@ -341,21 +364,33 @@ fn outcome(r: &RunResult) -> String {
 pub fn run(rep: &mut Report) {
     let thorough = rep.is_thorough();
     rep.exhaustive = false;
-    let fe_ops = vec![FeOp::GetFeatures, FeOp::GetVringBase(0), FeOp::SetLogBase(0, Some((0x1000, 0))), FeOp::SetVringNum(0, 8), FeOp::GetVringBase(1), FeOp::GetQueueNum, FeOp::GetConfig(0, 4, 0), FeOp::SetVringBase(1, 3), FeOp::GetMaxMemSlots, FeOp::SetVringEnable(0, true)];
+    // every frontend operation has its own lock-hold pattern, so every one of them is the observed
+    // call: against a reply-bearing and a fire-and-forget / acknowledged interferer, in both roles,
+    // with NEED_REPLY off and on, and against itself; all ordered pairs at thorough
+    let mut fe_ops = all_ops_basic();
+    fe_ops.extend([FeOp::SetProtocolFeatures(PF_ALL_DEFINED), FeOp::SetLogBase(0x5000, None), FeOp::SetLogFd, FeOp::GetVringBase(0), FeOp::SetVringNum(0, 8)]);
+    let inter = [FeOp::GetFeatures, FeOp::SetVringNum(1, 16), FeOp::GetVringBase(2)];
     let mut scs: Vec<Sc10> = Vec::new();
-    let n = if thorough { fe_ops.len() } else { 5 };
-    for a in 0..n {
-        for b in 0..n {
-            if !thorough && (a + 2 * b) % 3 == 1 && a != b {
-                continue;
+    for nr in [false, true] {
+        if thorough {
+            for a in &fe_ops {
+                for b in &fe_ops {
+                    scs.push(Sc10 { calls: vec![Call::Fe(a.clone()), Call::Fe(b.clone())], need_reply: nr });
+                }
             }
-            for nr in [false, true] {
-                scs.push(Sc10 { calls: vec![Call::Fe(fe_ops[a].clone()), Call::Fe(fe_ops[b].clone())], need_reply: nr });
+        } else {
+            for a in &fe_ops {
+                for b in &inter[..2] {
+                    scs.push(Sc10 { calls: vec![Call::Fe(a.clone()), Call::Fe(b.clone())], need_reply: nr });
+                    scs.push(Sc10 { calls: vec![Call::Fe(b.clone()), Call::Fe(a.clone())], need_reply: nr });
+                }
+                scs.push(Sc10 { calls: vec![Call::Fe(a.clone()), Call::Fe(a.clone())], need_reply: nr });
             }
         }
     }
+    scs.push(Sc10 { calls: vec![Call::Fe(inter[0].clone()), Call::Fe(inter[1].clone()), Call::Fe(inter[2].clone())], need_reply: true });
     let u = UUID_A;
-    let bp = vec![BpOp::SharedAdd(u), BpOp::ShmemUnmap(1, 0, 0, 0x1000, 0), BpOp::SharedLookup(u)];
+    let bp = vec![BpOp::SharedAdd(u), BpOp::ShmemUnmap(1, 0, 0, 0x1000, 0), BpOp::SharedLookup(u), BpOp::SharedRemove(u), BpOp::ShmemMap(2, 0, 0x1000, 0x1000, 1)];
     for a in &bp {
         for b in &bp {
             for nr in [false, true] {
@@ -363,18 +398,18 @@ pub fn run(rep: &mut Report) {
             }
         }
     }
-    let gp = vec![GpuOp::GetProtocolFeatures, GpuOp::GetDisplayInfo, GpuOp::SetScanout(1, 2, 3), GpuOp::DmabufUpdate([1, 2, 3, 4, 5]), GpuOp::GetEdid(1)];
+    let gp = gpu_ops_basic();
     for a in &gp {
         for b in &gp {
             scs.push(Sc10 { calls: vec![Call::Gpu(a.clone()), Call::Gpu(b.clone())], need_reply: false });
         }
     }
     if thorough {
-        for (a, b, c) in [(0, 1, 4), (0, 3, 5), (1, 1, 6), (3, 7, 0), (2, 0, 1)] {
+        for (a, b, c) in [(0, 9, 13), (0, 6, 14), (9, 9, 17), (6, 8, 0), (5, 0, 9), (21, 20, 27)] {
             scs.push(Sc10 { calls: vec![Call::Fe(fe_ops[a].clone()), Call::Fe(fe_ops[b].clone()), Call::Fe(fe_ops[c].clone())], need_reply: true });
         }
         scs.push(Sc10 { calls: vec![Call::Bp(bp[0].clone()), Call::Bp(bp[1].clone()), Call::Bp(bp[2].clone())], need_reply: true });
-        scs.push(Sc10 { calls: vec![Call::Gpu(gp[0].clone()), Call::Gpu(gp[1].clone()), Call::Gpu(gp[4].clone())], need_reply: false });
+        scs.push(Sc10 { calls: vec![Call::Gpu(gp[0].clone()), Call::Gpu(gp[1].clone()), Call::Gpu(gp[2].clone())], need_reply: false });
     }
     let start = std::time::Instant::now();
     let total_budget = if thorough { 1500.0 } else { 45.0 };
